@@ -397,6 +397,18 @@ extern "C" void fft_model(const void *tables) {
 }
 
 
+extern "C" void delete_fft_table(void *tables) {
+    FFT_PRECOMP *reps = (FFT_PRECOMP *) tables;
+    free(reps->buf);
+    delete reps;
+}
+
+extern "C" void delete_ifft_table(void *tables) {
+    IFFT_PRECOMP *reps = (IFFT_PRECOMP *) tables;
+    free(reps->buf);
+    delete reps;
+}
+
 extern "C" void *new_ifft_table(int32_t nn) {
     require(nn >= 16, "n must be >=16");
     require((nn & (nn - 1)) == 0, "n must be a power of 2");
